@@ -774,12 +774,39 @@ func (w flushWriter) Flush() {
 	}
 }
 
+// recorderWriter is a first-call-wins status recorder (the shape of access-log / metrics / tracing writers):
+// only the first WriteHeader — whatever its code — reaches the writer underneath.
+type recorderWriter struct {
+	http.ResponseWriter
+	wrote bool
+}
+
+func (w *recorderWriter) WriteHeader(code int) {
+	if w.wrote {
+		return
+	}
+	w.wrote = true
+	w.ResponseWriter.WriteHeader(code)
+}
+func (w *recorderWriter) Write(b []byte) (int, error) {
+	w.wrote = true
+	return w.ResponseWriter.Write(b)
+}
+func (w *recorderWriter) Flush() {
+	if f, ok := w.ResponseWriter.(http.Flusher); ok {
+		w.wrote = true
+		f.Flush()
+	}
+}
+
 // wrapMW is another middleware that wraps the response writer.
 func wrapMW(kind string) router.HandlerFunc {
 	return func(c *router.Context) {
 		orig := c.Response
 		if strings.HasSuffix(kind, "noflush") {
 			c.Response = bareWriter{orig}
+		} else if strings.HasSuffix(kind, "recorder") {
+			c.Response = &recorderWriter{ResponseWriter: orig}
 		} else {
 			c.Response = flushWriter{orig}
 		}
